@@ -38,12 +38,19 @@ def body_coord(E, n, npt):
     else:
         E.prove(len(pts) == ndirs, 'coord:npt-1-evaluations')
     delta = rhobeg
+    absv = lambda v: E.ite(v >= 0, v, -v)
     for k, x in enumerate(pts):
         E.prove(E.all([xl[i] <= x[i] for i in range(n)] + [x[i] <= xu[i] for i in range(n)]), 'coord:point-inside-bounds')
         diff = x - x0
-        dist2 = np.dot(diff, diff)
-        E.prove(dist2 >= (delta / 100) * (delta / 100), 'coord:at-least-0.01*rhobeg-from-x0')
-        E.prove(dist2 <= 4 * delta * delta * (1 if k < 2 * n else 2), 'coord:at-most-2*rhobeg-from-x0' if k < 2 * n else 'coord:offdiagonal-at-most-2*sqrt2*rhobeg-from-x0')
+        # coordinate pattern: distances are decided per coordinate (linear); for a single moved coordinate |d_j| is the distance
+        moved = [absv(diff[i]) for i in range(n)]
+        if k < 2 * n:
+            j = k % n
+            E.prove(E.all([moved[j] >= delta / 100, moved[j] <= 2 * delta] + [diff[i] == 0 for i in range(n) if i != j]),
+                    'coord:between-0.01*rhobeg-and-2*rhobeg-from-x0-along-one-coordinate')
+        else:
+            E.prove(E.all([moved[i] <= 2 * delta for i in range(n)] + [E.any([moved[i] >= delta / 100 for i in range(n)])]),
+                    'coord:offdiagonal-point-within-2*rhobeg-per-coordinate')
     if exit_info is None:
         M = C.model
         E.prove(M.npt() == npt, 'coord:model-complete')
@@ -135,7 +142,7 @@ def harnesses(tier, seed):
                           bounds="n=%d, npt=%d, any x0 in the box, any box with gap >= 2*rhobeg, any residual values (they drive the point swap)" % (n, npt),
                           assumptions=["budget covers the initialisation (maxfun >= npt); one sample per point", "real arithmetic; sumsq abstracted (UF) - only comparisons of objective values matter here",
                                        "condition number < 1e4: consequence on paper of the proved step inequalities for the coordinate pattern, not a solver result"],
-                          expect=['coord:point-inside-bounds', 'coord:two-steps-per-coordinate-distinct-by-0.01*rhobeg'] if npt > n + 1 else ['coord:point-inside-bounds'],
+                          expect=['coord:point-inside-bounds', 'coord:between-0.01*rhobeg-and-2*rhobeg-from-x0-along-one-coordinate'],
                           nproc=None, wall_budget=(200 if tier == 'quick' else 900)))
     rc = [('plain', 1, 2), ('plain', 2, 1), ('orthog', 1, 2), ('orthog', 2, 2), ('orthog', 2, 4)] if tier == 'quick' else \
         [('plain', 1, 2), ('plain', 2, 1), ('plain', 2, 2), ('orthog', 1, 2), ('orthog', 1, 3), ('orthog', 2, 2), ('orthog', 2, 4), ('orthog', 2, 5)]
